@@ -948,7 +948,8 @@ package gohlslib
 // variant selection: every codec string the muxer side can advertise is accepted
 //@ func checkSupport
 //@   props C09 C13
-//@   loop 1 invariant ri < len(codecs)
+//@   ensures result == forall(i, (0 <= i && i < len(codecs)) ==> supportedCodec(codecs[i]))
+//@   loop 1 invariant ri < len(codecs) && forall(i, (0 <= i && i <= ri) ==> supportedCodec(codecs[i]))
 //@ end
 
 
@@ -995,4 +996,38 @@ package gohlslib
 //@   loop 1 invariant ri < len(m.streams) && streamsOK(m) && oneLeader(m) && calls("muxerStream.rotateParts") == 1 + (ri + 1) - ite(lidx(m) <= ri, 1, 0)
 //@   loop 1 invariant forall(i, (0 <= i && i < len(m.streams) && (i <= ri || i == lidx(m))) ==> (callarg("muxerStream.rotateParts", rotPos(m, i), 0) == m.streams[i]
 //@        && callarg("muxerStream.rotateParts", rotPos(m, i), 1) == nextDTS && callarg("muxerStream.rotateParts", rotPos(m, i), 2) == 1))
+//@ end
+
+// ---------------------------------------------------------------------------------------
+// lemma harnesses (verif_lemmas.go)
+
+//@ pred supportedCodec(c string) := hasprefix(c, "avc1.") || hasprefix(c, "hvc1.") || hasprefix(c, "hev1.") || hasprefix(c, "mp4a.") || c == "opus"
+//@      || hasprefix(c, "av01.") || hasprefix(c, "vp09.")
+
+//@ func verifLemmaCodecSupported
+//@   props C09
+//@   lemma
+//@   nosafety
+//@   requires c != nil && ref(c) != 0 && (is(c, *codecs.AV1) || is(c, *codecs.VP9) || is(c, *codecs.H265) || is(c, *codecs.H264) || is(c, *codecs.Opus) || is(c, *codecs.MPEG4Audio))
+//@   ensures result
+//@ end
+
+//@ func verifLemmaSpan
+//@   props C03
+//@   lemma
+//@   requires clockRate > 0 && 0 <= a && a <= b && b < 4611686018427387904 && clockRate <= 1000000
+//@   ensures 0 <= result0 - result1 && result0 - result1 <= 1
+//@ end
+
+//@ func verifLemmaOrigin
+//@   props C09 C10
+//@   lemma
+//@   requires rate > 0 && rate <= 1000000 && 0 <= base && base < 4611686018427387904
+//@   ensures result == 0
+//@ end
+
+//@ func verifLemmaIdentity90k
+//@   props C01
+//@   lemma
+//@   ensures result == v
 //@ end
